@@ -88,6 +88,30 @@ Spec == Init /\ [][Next]_vars
 
 Sum(s) == LET RECURSIVE S(_) S(i) == IF i > Len(s) THEN 0 ELSE s[i] + S(i + 1) IN S(1)
 
+(***************************************************************************)
+(* Merkle caps.  Every tree (one per input batch, one per fold phase) is   *)
+(* committed by the cap of height min(cap, log height of the tree)         *)
+(* (p3-merkle-tree: cap_height.min(num_layers - 1)); the opening of a      *)
+(* query walks log height - that many levels and the remaining top bits of *)
+(* the index the tree is addressed with select the cap entry.  The circuit *)
+(* (pcs/mmcs.rs) derives the cap height from the number of entries of the  *)
+(* commitment it is given.  A fold phase of arity a at height h commits    *)
+(* rows of 2^a evaluations: a tree of log height h - a.                    *)
+(***************************************************************************)
+EffCap(cap, t) == Min2(cap, t)
+SumTo(s, n) == LET RECURSIVE S(_) S(i) == IF i > n THEN 0 ELSE s[i] + S(i + 1) IN S(1)
+HeightAfter(i) == GlobalMax - SumTo(arities, i)
+RootsInput(cap) == [j \in 1..Len(batches) |-> 2 ^ EffCap(cap, BatchMax(batches[j]))]
+RootsCommit(cap) == [i \in 1..Len(arities) |-> 2 ^ EffCap(cap, HeightAfter(i))]
+\* index bits an input batch / a fold phase is addressed with, split into Merkle path and cap selection
+PathBitsInput(cap, j) == BatchMax(batches[j]) - EffCap(cap, BatchMax(batches[j]))
+PathBitsCommit(cap, i) == HeightAfter(i) - EffCap(cap, HeightAfter(i))
+\* both verifiers address batch j with GlobalMax - shift bits: path + cap selection must be exactly those (no bit dropped, none reused)
+CapBitsAccounted(cap) ==
+    phase = "done" =>
+        /\ \A j \in 1..Len(batches) : PathBitsInput(cap, j) >= 0 /\ PathBitsInput(cap, j) + EffCap(cap, BatchMax(batches[j])) = GlobalMax - shiftN[j]
+        /\ \A i \in 1..Len(arities) : PathBitsCommit(cap, i) >= 0 /\ HeightAfter(i) >= FinalHeight
+
 \* every shorter height class above the final height is rolled in exactly once, at its own height
 RollInOnceAtRightHeight ==
     (phase = "done" /\ ~Refused) =>
